@@ -328,3 +328,89 @@ def cfg_of(fi):
     if c is None:
         c = _CACHE[id(fi.node)] = CFG(fi.node)
     return c
+
+
+def edge_implies(test, label, pos=(), neg=()):
+    """True when following the `label` ('true' / 'false') edge out of the test expression forces FACT, where `pos` are the
+    normalised texts of expressions equivalent to FACT and `neg` those equivalent to its negation.  Conjunctions pass the
+    true edge down, disjunctions the false edge, `not` swaps them."""
+    from .src import norm
+    if label not in ('true', 'false'):
+        return False
+    t = norm(test)
+    if label == 'true' and t in pos:
+        return True
+    if label == 'false' and t in neg:
+        return True
+    if isinstance(test, ast.UnaryOp) and isinstance(test.op, ast.Not):
+        return edge_implies(test.operand, 'false' if label == 'true' else 'true', pos, neg)
+    if isinstance(test, ast.BoolOp):
+        if isinstance(test.op, ast.And) and label == 'true':
+            return any(edge_implies(v, 'true', pos, neg) for v in test.values)
+        if isinstance(test.op, ast.Or) and label == 'false':
+            return any(edge_implies(v, 'false', pos, neg) for v in test.values)
+    return False
+
+
+def len_implied(test, label, var, k):
+    """True when following the `label` edge out of `test` forces len(var) > k (k >= 0), so that var[k] cannot raise.
+    Understands ==, !=, <, <=, >, >=, chained comparisons and `in (consts)` on len(var), truthiness of var (k == 0),
+    and / or / not."""
+    from .src import norm
+    if label not in ('true', 'false'):
+        return False
+    L = 'len(%s)' % var
+    if isinstance(test, ast.UnaryOp) and isinstance(test.op, ast.Not):
+        return len_implied(test.operand, 'false' if label == 'true' else 'true', var, k)
+    if isinstance(test, ast.BoolOp):
+        if isinstance(test.op, ast.And) and label == 'true':
+            return any(len_implied(v, 'true', var, k) for v in test.values)
+        if isinstance(test.op, ast.Or) and label == 'false':
+            return any(len_implied(v, 'false', var, k) for v in test.values)
+        return False
+    if norm(test) in (var, L):
+        return label == 'true' and k == 0
+    if not isinstance(test, ast.Compare):
+        return False
+    terms = [test.left] + list(test.comparators)
+
+    def const(n):
+        try:
+            v = ast.literal_eval(n)
+        except Exception:
+            return None
+        return v if isinstance(v, int) and not isinstance(v, bool) else None
+    lo = None     # a proven lower bound on len(var) along this edge
+    if len(test.ops) == 1:
+        a, op, b = terms[0], test.ops[0], terms[1]
+        if norm(a) == L:
+            c = const(b)
+            if c is not None:
+                if label == 'true':
+                    lo = {ast.Eq: c, ast.Gt: c + 1, ast.GtE: c}.get(type(op))
+                else:
+                    lo = {ast.NotEq: c, ast.Lt: c, ast.LtE: c + 1}.get(type(op))
+            elif isinstance(op, ast.In) and label == 'true' and isinstance(b, (ast.Tuple, ast.List, ast.Set)):
+                cs = [const(e) for e in b.elts]
+                if cs and all(x is not None for x in cs):
+                    lo = min(cs)
+        elif norm(b) == L:
+            c = const(a)
+            if c is not None:
+                if label == 'true':
+                    lo = {ast.Eq: c, ast.Lt: c + 1, ast.LtE: c}.get(type(op))
+                else:
+                    lo = {ast.NotEq: c, ast.Gt: c, ast.GtE: c + 1}.get(type(op))
+    elif label == 'true':
+        # chained: every link holds
+        for i, op in enumerate(test.ops):
+            a, b = terms[i], terms[i + 1]
+            if norm(b) == L and const(a) is not None:
+                c = const(a)
+                v = {ast.Lt: c + 1, ast.LtE: c, ast.Eq: c}.get(type(op))
+                lo = v if lo is None or (v is not None and v > lo) else lo
+            if norm(a) == L and const(b) is not None:
+                c = const(b)
+                v = {ast.Gt: c + 1, ast.GtE: c, ast.Eq: c}.get(type(op))
+                lo = v if lo is None or (v is not None and v > lo) else lo
+    return lo is not None and lo > k
